@@ -78,7 +78,8 @@ seed_zoneinfo()
 
 
 class Bounds:
-    def __init__(self, maxlen=2, maxkeys=2, depth=6, poolmax=None):
+    def __init__(self, maxlen=2, maxkeys=2, depth=6, poolmax=None, chain_wrap=False):
+        self.chain_wrap = chain_wrap  # let a member of ChainMap.maps be a ChainMap itself (encode-form checks only)
         self.maxlen = maxlen
         self.maxkeys = maxkeys
         self.depth = depth
@@ -91,6 +92,7 @@ class Ctx:
         self.vars = []  # (name, annotation-source, precondition-or-None)
         self.n = 0
         self.prefix = prefix
+        self.rec = {}  # dataclass -> nesting count (self-referencing classes are unrolled once)
 
     def new(self, letter, ann, pre=None):
         name = "%s%s%d" % (self.prefix, letter, self.n)
@@ -221,11 +223,15 @@ class Map(Node):
 
 
 class ChainMapN(Node):
-    def __init__(self, maps):
+    def __init__(self, maps, wrap=None):
         self.maps = maps
+        self.wrap = wrap
 
     def make(self, env):
-        return collections.ChainMap(*[m.make(env) for m in self.maps])
+        ms = [m.make(env) for m in self.maps]
+        if self.wrap is not None and env[self.wrap]:
+            ms[0] = collections.ChainMap(ms[0])  # a member of .maps may be any mapping, e.g. another ChainMap
+        return collections.ChainMap(*ms)
 
 
 class Tup(Node):
@@ -311,6 +317,9 @@ def plan(t, ctx, depth=0, tvmap=None):
         vals = ctx.cut(list(ti.args))
         return Pool(ctx.sel(len(vals)), vals)
     if k == "optional":
+        ii = tinfo.info(ti.args[0], tvmap)
+        if ii.kind == "dataclass" and ctx.rec.get(ii.type, 0) >= 2:
+            return Const(None)  # bound: a self-referencing class is nested at most once
         fl = ctx.new("z", "bool")
         return Opt(fl, plan(ti.args[0], ctx, depth + 1, tvmap))
     if k == "union":
@@ -363,15 +372,20 @@ def plan(t, ctx, depth=0, tvmap=None):
         return Map(ctor, keys, flags, values)
     if k == "chainmap":
         inner_t = typing.Dict[ti.args[0], ti.args[1]]
-        return ChainMapN([plan(inner_t, ctx, depth + 1, tvmap) for _ in range(2)])
+        return ChainMapN([plan(inner_t, ctx, depth + 1, tvmap) for _ in range(2)],
+                         ctx.new("w", "bool") if B.chain_wrap else None)
     if k == "dataclass":
         tv = dict(tvmap or {})
         tv.update(ti.extra or {})
         fields = []
-        for name, ft, f in tinfo.dc_fields(ti.type):
-            if not f.init:
-                continue
-            fields.append((name, plan(ft, ctx, depth + 1, tv)))
+        ctx.rec[ti.type] = ctx.rec.get(ti.type, 0) + 1
+        try:
+            for name, ft, f in tinfo.dc_fields(ti.type):
+                if not f.init:
+                    continue
+                fields.append((name, plan(ft, ctx, depth + 1, tv)))
+        finally:
+            ctx.rec[ti.type] -= 1
         return Obj(ti.type, fields)
     if k == "namedtuple":
         return Obj(ti.type, [(n, plan(ft, ctx, depth + 1, tvmap)) for n, ft in tinfo.nt_fields(ti.type)])
